@@ -530,6 +530,45 @@ func runC12(o *Out, rng *RNG, tier string, replay string) {
 		}
 	}
 
+	// ---- (c') a task signals while the scope's Close waits for it (accepted since b43446f)
+	for fk := 0; fk < 3; fk++ {
+		for iso := 0; iso < 2; iso++ {
+			sig := []sop{{K: "stop", S: 1}, {K: "kill", S: 1}, {K: "apperr", S: 1, Es: []int{7}}}[fk]
+			hist := []sop{{K: "newroot"}, {K: "newchild", S: 0, Iso: iso == 1}, {K: "add", S: 1}, {K: "close", S: 1}, sig,
+				{K: "err", S: 1}, {K: "done", S: 1}, {K: "close", S: 0}}
+			i := 0
+			r := runSeq(func(w *world, step int) *sop {
+				if i >= len(hist) {
+					return nil
+				}
+				i++
+				return &hist[i-1]
+			}, 100)
+			o.AddCase(fmt.Sprintf("CSeq %s %s %s", r.coqHist(), r.coqObs(), r.coqErrs()), r.desc(), "waiting:"+r.key(), true)
+			o.Stat("signal_while_close_waits")
+			bad := r.Hang || r.Ended != "" || len(r.Obs) != len(hist)
+			for _, ob := range r.Obs {
+				for _, m := range ob.Main {
+					if m == "SPanic" {
+						bad = true
+					}
+				}
+			}
+			if !bad {
+				want := 3 // Kill / AppendError: the child rolls back and reports the error
+				if fk == 0 {
+					want = 2
+				}
+				if r.Obs[len(r.Obs)-1].Closers[0] != want {
+					bad = true
+				}
+			}
+			if bad {
+				o.Fail("signal_while_close_waits", fmt.Sprintf("signal kind %d on a scope whose Close waits for a task (isolated %v): panic, hang or wrong Close result: %+v", fk, iso == 1, r.Obs), "signal_while_close_waits", r.desc())
+			}
+		}
+	}
+
 	// ---- (d) random sequential histories on scope trees without listeners
 	nSeq := 500
 	if thorough {
